@@ -461,12 +461,12 @@ Section WithOracles.
   Lemma res_ok_same st out nrej : res_ok st (mk_result st [] out nrej).
   Proof. unfold res_ok. simpl. repeat split; auto. Qed.
 
-  Lemma fetch_step_ok st specs gforce : res_ok st (fetch_step g ia st specs gforce).
+  Lemma fetch_step_h_ok st specs gforce recv : res_ok st (fetch_step_h ia st specs gforce recv).
   Proof.
-    unfold fetch_step.
-    destruct (resolve_fetch specs (listing (rrefs st))) as [[pn items] tags].
-    destruct pn; [apply res_ok_same|].
-    set (have' := add_all _ _). set (extra := flat_map _ tags).
+    unfold fetch_step_h.
+    destruct (resolve_fetch specs (listing (rrefs st))) as [items tags].
+    destruct (recv (map fi_new items)) as [have'|]; [|apply res_ok_same].
+    set (extra := flat_map _ tags).
     unfold fetch_loop.
     pose proof (fetch_loop_acc gforce (lrefs st) (sort_items (items ++ extra)) (lrefs st, [], O)) as H.
     destruct (fold_left (fetch_item ia gforce) (sort_items (items ++ extra)) (lrefs st, [], O))
@@ -476,6 +476,9 @@ Section WithOracles.
     specialize (H H0). simpl in H. destruct H as (H1 & H2 & H3 & H4).
     unfold res_ok. simpl. repeat split; auto.
   Qed.
+
+  Lemma fetch_step_ok st specs gforce : res_ok st (fetch_step g ia st specs gforce).
+  Proof. apply fetch_step_h_ok. Qed.
 
   (* ---- push *)
   (** what identifyUpdates guarantees about an update it lets through without force *)
@@ -731,28 +734,31 @@ Section WithOracles.
     destruct Ht as [a Ha]. exists a. apply Hm. exact Ha.
   Qed.
 
-  (** guard of the pull theorem: when the pulled branch does not exist yet, the fetch half does not
-      create it (i.e. no refspec of this pull writes into refs/heads/BRANCH itself).  Without it the
-      faithful model - and the code - overwrite the just-fetched branch: see pull_new_branch_refuted. *)
+  (** guard needed only for the code BEFORE fix 43d74b6: when the pulled branch does not exist yet, the
+      fetch half does not create it.  The repaired code re-reads the branch, so no guard is needed. *)
   Definition pull_guard (st : state) (branch : name) (specs : list refspec) (gf : bool) : Prop :=
     rget (lrefs st) (s_heads ++ branch) = None ->
     rget (lrefs (r_state (fetch_step g ia st specs gf))) (s_heads ++ branch) = None.
 
-  Lemma pull_step_ok st branch specs gf mode m :
-    pull_guard st branch specs gf ->
-    res_ok st (pull_step g ia sk st branch specs gf mode m).
+  Lemma pull_gen_ok fixed st branch specs gf mode m :
+    (fixed = false -> pull_guard st branch specs gf) ->
+    res_ok st (pull_step_gen fixed g ia sk st branch specs gf mode m).
   Proof.
-    intros G. unfold pull_step.
+    intros G. unfold pull_step_gen.
     pose proof (fetch_step_ok st specs gf) as F. unfold pull_guard in G.
     set (rf := fetch_step g ia st specs gf) in *.
     destruct (negb (r_outcome rf =? 0)); [exact F|].
     destruct F as (F1 & F2 & F3 & F4 & F5).
     set (st1 := r_state rf) in *.
     set (bn := s_heads ++ branch) in *.
-    destruct (negb (is_some (rget (lrefs st) bn))) eqn:Enb.
-    - (* new branch *)
+    set (newbranch := if fixed then _ else _).
+    destruct newbranch eqn:Enb.
+    - (* new branch: the branch does not exist after the fetch *)
       assert (Hnone : rget (lrefs st1) bn = None).
-      { apply G. destruct (rget (lrefs st) bn); [discriminate|reflexivity]. }
+      { unfold newbranch in Enb. destruct fixed.
+        - apply andb_true_iff in Enb. destruct Enb as [_ E2].
+          destruct (rget (lrefs st1) bn); [discriminate|reflexivity].
+        - apply G; [reflexivity|]. destruct (rget (lrefs st) bn); [discriminate|reflexivity]. }
       match goal with |- context [flat_map ?f specs] => set (heads := flat_map f specs) end.
       assert (W : forall out, res_ok st (mk_result st1 (r_trace rf) out (r_nrej rf))).
       { intros out. unfold res_ok. simpl. auto. }
@@ -766,7 +772,7 @@ Section WithOracles.
       + intros Hf. apply rset_log_faithful. auto.
       + exact F4.
       + intros n e He. apply rset_log_logs_mono. auto.
-    - (* existing branch *)
+    - (* existing branch (possibly created by the fetch half): a merge *)
       match goal with |- context [flat_map ?f specs] => set (heads := flat_map f specs) end.
       assert (W : forall out, res_ok st (mk_result st1 (r_trace rf) out (r_nrej rf))).
       { intros out. unfold res_ok. simpl. auto. }
@@ -784,40 +790,30 @@ Section WithOracles.
       + auto.
   Qed.
 
+  Lemma pull_step_ok st branch specs gf mode m : res_ok st (pull_step g ia sk st branch specs gf mode m).
+  Proof. apply pull_gen_ok. discriminate. Qed.
+
   (* ---- histories *)
-  Definition op_guard (st : state) (o : op) : Prop :=
-    match o with
-    | OPull b specs gf _ _ => pull_guard st b specs gf
-    | _ => True
-    end.
-
-  Fixpoint guards_hold (st : state) (ops : list op) : Prop :=
-    match ops with
-    | [] => True
-    | o :: rest => op_guard st o /\ guards_hold (r_state (step g ia sk st o)) rest
-    end.
-
-  Lemma step_ok st o : op_guard st o -> res_ok st (step g ia sk st o).
+  Lemma step_ok st o : res_ok st (step g ia sk st o).
   Proof.
-    destruct o; simpl; intros G.
+    destruct o; simpl.
     - apply fetch_step_ok.
     - apply push_step_ok.
     - apply merge_step_ok.
-    - apply pull_step_ok. exact G.
+    - apply pull_step_ok.
   Qed.
 
   Lemma run_ops_ok ops : forall st,
-    guards_hold st ops ->
     let '(st', tr) := run_ops g ia sk st ops in
     Forall (trans_ok g) tr /\ Forall (logged (lrefs st')) tr /\
     (LogFaithful (lrefs st) -> LogFaithful (lrefs st')) /\
     (LogFaithful (rrefs st) -> LogFaithful (rrefs st')) /\
     (forall n e, In e (rlogs (lrefs st) n) -> In e (rlogs (lrefs st') n)).
   Proof.
-    induction ops as [|o rest IH]; intros st G; simpl.
+    induction ops as [|o rest IH]; intros st; simpl.
     - repeat split; auto.
-    - destruct G as [G1 G2]. pose proof (step_ok st o G1) as S.
-      specialize (IH (r_state (step g ia sk st o)) G2).
+    - pose proof (step_ok st o) as S.
+      specialize (IH (r_state (step g ia sk st o))).
       destruct (run_ops g ia sk (r_state (step g ia sk st o)) rest) as [st' tr].
       destruct S as (S1 & S2 & S3 & S4 & S5). destruct IH as (I1 & I2 & I3 & I4 & I5).
       split; [|split; [|split; [|split]]].
@@ -828,25 +824,29 @@ Section WithOracles.
       + auto.
   Qed.
 
-  (** C10_forward_only (under the pull guard): every transition of every history is a legal move *)
-  Theorem forward_only_history st ops :
-    guards_hold st ops -> Forall (trans_ok g) (snd (run_ops g ia sk st ops)).
+  (** C10_forward_only: every transition of every history is a legal move *)
+  Theorem forward_only_history st ops : Forall (trans_ok g) (snd (run_ops g ia sk st ops)).
   Proof.
-    intros G. pose proof (run_ops_ok ops st G) as H.
+    pose proof (run_ops_ok ops st) as H.
     destruct (run_ops g ia sk st ops) as [st' tr]. simpl. tauto.
   Qed.
 
   (** C10_log_true: logs stay faithful chains and every local update of the history is in its ref's log
       with the old and new value the transition had *)
   Theorem log_true_history st ops :
-    guards_hold st ops ->
     (LogFaithful (lrefs st) -> LogFaithful (lrefs (fst (run_ops g ia sk st ops)))) /\
     (LogFaithful (rrefs st) -> LogFaithful (rrefs (fst (run_ops g ia sk st ops)))) /\
     Forall (logged (lrefs (fst (run_ops g ia sk st ops)))) (snd (run_ops g ia sk st ops)).
   Proof.
-    intros G. pose proof (run_ops_ok ops st G) as H.
+    pose proof (run_ops_ok ops st) as H.
     destruct (run_ops g ia sk st ops) as [st' tr]. simpl. tauto.
   Qed.
+
+  (** the code before fix 43d74b6 satisfies the rule only under [pull_guard] *)
+  Theorem pull_prefix_guarded st branch specs gf mode m :
+    pull_guard st branch specs gf ->
+    res_ok st (pull_step_prefix g ia sk st branch specs gf mode m).
+  Proof. intros G. apply pull_gen_ok. intros _. exact G. Qed.
 
   (** C10_ff_exact: when the branch value is the merge base and exactly one other commit remains,
       a merge that is not --no-ff sets the branch exactly to that commit, logging (old, new). *)
@@ -885,15 +885,13 @@ End WithOracles.
 
 (** the executable model's own oracles are sound, so the theorems hold for run_C10's step outright *)
 Theorem forward_only_instance g st ops :
-  guards_hold g (is_ancestor g) (seek_spec g) st ops ->
   Forall (trans_ok g) (snd (run_ops g (is_ancestor g) (seek_spec g) st ops)).
 Proof.
   apply forward_only_history; [apply is_ancestor_sound|apply seek_spec_sound].
 Qed.
 
-(* ------------------------------------------------------- refutation of the unguarded statement *)
+(* ------------------------------------- the defect repaired by 43d74b6, on the pre-fix variant *)
 
-Definition bs (l : list N) : name := l.
 Definition n_b : name := s_heads ++ [98].                        (* heads/b *)
 Definition n_x : name := s_heads ++ [120].                       (* heads/x *)
 Definition n_ox : name := s_remotes ++ [111;114;105;103;105;110;47;120].  (* remotes/origin/x *)
@@ -903,11 +901,10 @@ Definition n_ox : name := s_remotes ++ [111;114;105;103;105;110;47;120].  (* rem
 Definition w_graph : graph := [(0, []); (1, [])].
 Definition w_state : state :=
   mk_state [] (rset_log (rset_log [] n_b 0 ACT_SETUP) n_x 1 ACT_SETUP) [].
-Definition w_op : op :=
-  OPull [98] [mk_spec false true s_heads s_heads; mk_spec false false n_x n_ox] false MFF 1000.
+Definition w_specs : list refspec := [mk_spec false true s_heads s_heads; mk_spec false false n_x n_ox].
 
 Lemma w_trace :
-  r_trace (step w_graph (is_ancestor w_graph) (seek_spec w_graph) w_state w_op) =
+  r_trace (pull_step_prefix w_graph (is_ancestor w_graph) (seek_spec w_graph) w_state [98] w_specs false MFF 1000) =
   [mk_trans Local n_b None (Some 0) false; mk_trans Local n_x None (Some 1) false;
    mk_trans Local n_ox None (Some 1) false; mk_trans Local n_b (Some 0) (Some 1) false].
 Proof. vm_compute. reflexivity. Qed.
@@ -918,14 +915,22 @@ Proof.
 Qed.
 
 Theorem pull_new_branch_refuted :
-  exists g st o, ~ Forall (trans_ok g) (r_trace (step g (is_ancestor g) (seek_spec g) st o)).
+  exists g st b specs gf mode m,
+    ~ Forall (trans_ok g) (r_trace (pull_step_prefix g (is_ancestor g) (seek_spec g) st b specs gf mode m)).
 Proof.
-  exists w_graph, w_state, w_op. rewrite w_trace. intros H.
+  exists w_graph, w_state, [98], w_specs, false, MFF, 1000. rewrite w_trace. intros H.
   inversion H as [|? ? _ H1]; subst. inversion H1 as [|? ? _ H2]; subst.
   inversion H2 as [|? ? _ H3]; subst. inversion H3 as [|? ? H4 _]; subst.
   unfold trans_ok in H4. simpl in H4. destruct H4 as [H4 _].
   apply w_not_anc. apply H4. reflexivity.
 Qed.
+
+(** the repaired code on the same input: the fetch creates heads/b, the pull then merges (here: fails, the
+    histories are unrelated) and heads/b keeps the fetched value *)
+Example w_fixed :
+  let r := pull_step w_graph (is_ancestor w_graph) (seek_spec w_graph) w_state [98] w_specs false MFF 1000 in
+  r_outcome r = 1 /\ rget (lrefs (r_state r)) n_b = Some 0.
+Proof. vm_compute. split; reflexivity. Qed.
 
 (* ------------------------------------------------------- non-vacuity *)
 
@@ -948,7 +953,3 @@ Example ex_trace_nonempty :
   length (snd (run_ops ex_graph (is_ancestor ex_graph) (seek_spec ex_graph) ex_state ex_ops)) = 3%nat.
 Proof. vm_compute. reflexivity. Qed.
 
-Example ex_guards : guards_hold ex_graph (is_ancestor ex_graph) (seek_spec ex_graph) ex_state ex_ops.
-Proof.
-  simpl. repeat split; auto. unfold pull_guard. intros H. vm_compute in H. discriminate.
-Qed.
